@@ -2,6 +2,7 @@
 // exporter writing to real files, with write/writev/rename interposed in this executable.
 #include "util.hpp"
 #include "pools.hpp"
+#include "libdump.hpp"
 #include <sys/uio.h>
 #include <sys/syscall.h>
 #include <dirent.h>
@@ -58,7 +59,7 @@ extern "C" lzma_ret lzma_code(lzma_stream* s, lzma_action act) { static auto rea
 
 // ------------------------------------------------------------------ scenarios
 struct Step { char op; int n; std::string name; bool exp; };      // 'Q' buffer n records, 'R' rotate(name, exp), 'W' write_block
-struct Scenario { std::string name; int comp; bool fd; std::vector<Step> steps; std::string preexisting; bool stale_part = false; bool devnull_first = false; };
+struct Scenario { std::string name; int comp; bool fd; std::vector<Step> steps; std::string preexisting; bool stale_part = false; bool devnull_first = false; int long_path = 0; };   // long_path: length of the final path of every output (reached through a padded directory name)
 static const char* ext_of(int comp) { return comp == 1 ? ".gz" : comp == 2 ? ".xz" : ""; }
 
 static std::vector<Scenario> scenarios(bool fd_too) {
@@ -77,6 +78,10 @@ static std::vector<Scenario> scenarios(bool fd_too) {
         if (!fd) v.push_back({"stale-part-" + c, comp, false, {{'Q', 2, "", false}, {'R', 0, "outB", true}, {'Q', 1, "", false}}, "", true});
         // the first name is a symbolic link to /dev/null ("discard until the first rotation"): the later outputs are ordinary names and get the ordinary treatment
         if (!fd) { v.push_back({"from-devnull-" + c, comp, false, {{'Q', 2, "", false}, {'R', 0, "outB", true}, {'Q', 3, "", false}}, "", false}); v.back().devnull_first = true; }
+        // final paths of exactly 255 and of 252 characters (limits of fixed-size name buffers: NAME_MAX is 255)
+        if (!fd) for (int L : {255, 252}) { v.push_back({"path" + std::to_string(L) + "-" + c, comp, false, {{'Q', 2, "", false}, {'R', 0, "outB", true}, {'Q', 1, "", false}}, ""}); v.back().long_path = L; }
+        // the output ends exactly at the end of the staging buffer when it is rotated: the closing break needs a flush of its own (one more fault point)
+        v.push_back({"aligned-" + c, comp, (bool)fd, {{'A', 1, "", false}, {'R', 0, "outB", true}, {'Q', 2, "", false}}, ""});
         v.push_back({"buffered-unwritten-" + c, comp, (bool)fd, {{'Q', 1, "", false}}, ""});
         v.push_back({"nothing-" + c, comp, (bool)fd, {}, ""});
     }
@@ -94,6 +99,16 @@ static bool decompress(int comp, const std::string& z, std::string& out) {
 static GenericQueryResponse big_record(int i) { static Pools P = make_pools(1000000); GenericQueryResponse q = P.qr[0]; q.query_name = std::string(3000 + i, (char)('a' + i % 26)); q.client_port = 1000 + i; q.transaction_id = i; return q; }
 
 static GenericQueryResponse entropy_record(int i) { GenericQueryResponse q = big_record(i); std::string n(3000 + i, 0); uint64_t x = 88172645463325252ULL + i; for (auto& ch : n) { x ^= x << 13; x ^= x >> 7; x ^= x << 17; ch = (char)x; } q.query_name = n; return q; }
+
+// length of the last string of a one-record block with which the encoder's 2 KiB staging buffer is EXACTLY full when the block has been written
+// (found by trying every length on an in-memory exporter; the closing break then needs a flush of its own)
+static GenericQueryResponse aligned_record(const FilePreamble& fp0) {
+    static int L = -1;
+    if (L < 0) for (int l = 1; l <= 2100 && L < 0; l++) { FilePreamble fp = fp0; std::vector<std::string> outs; CdnsExporter e(fp, MemSink{&outs}, CborOutputCompression::NO_COMPRESSION);
+        GenericQueryResponse q = big_record(0); q.query_name = std::string(100, 'q'); q.round_trip_time = boost::none; q.country_code = std::string(l, 'C'); e.buffer_qr(q); e.write_block(); if (e.m_encoder.m_avail == 0) L = l; }
+    if (L < 0) { fprintf(stderr, "no aligning length found\n"); _exit(2); }
+    GenericQueryResponse q = big_record(0); q.query_name = std::string(100, 'q'); q.round_trip_time = boost::none; q.country_code = std::string(L, 'C'); return q;
+}
 
 struct RunLog {
     std::vector<std::string> events;              // per API call: "ok" / "exc:<what>"
@@ -120,6 +135,11 @@ static void run_scenario(const Scenario& sc, const std::string& dir, bool protoc
         if (st.op == 'Q' || st.op == 'H') for (int i = 0; i < st.n && !failed; i++) {
             size_t before = e->get_block_item_count();
             try { buffered.push_back(rec); size_t r = e->buffer_qr(st.op == 'H' ? entropy_record(rec) : big_record(rec)); rec++; cur_bytes += r; if (r > 0) buffered.clear(); log.events.push_back("ok"); }
+            catch (std::exception& x) { rec++; log.events.push_back(std::string("exc:") + x.what()); failed = true; log.block_write_failed = true; log.failed_step = (int)si; log.buffered_before_fail = before + 1; log.buffered_after_fail = e->get_block_item_count(); log.recs_in_failed_block = buffered; }
+        }
+        else if (st.op == 'A') { // one record whose block ends exactly at the end of the staging buffer, written explicitly
+            size_t before = e->get_block_item_count();
+            try { buffered.push_back(rec); size_t r = e->buffer_qr(aligned_record(fp)); rec++; cur_bytes += r; r = e->write_block(); cur_bytes += r; buffered.clear(); log.events.push_back("ok"); }
             catch (std::exception& x) { rec++; log.events.push_back(std::string("exc:") + x.what()); failed = true; log.block_write_failed = true; log.failed_step = (int)si; log.buffered_before_fail = before + 1; log.buffered_after_fail = e->get_block_item_count(); log.recs_in_failed_block = buffered; }
         }
         else if (st.op == 'R') {
@@ -170,7 +190,9 @@ int main(int argc, char** argv) {
 
     // one task per scenario; each explores all of its k (and fault kinds) in forked grandchildren
     auto explore = [&](const Scenario& sc, Result& R, long only_k, int only_fault, int only_persist) {
-        std::string dir = top + "/t" + std::to_string(getpid()); mkdir(dir.c_str(), 0700); g_track = dir;
+        std::string dir = top + "/t" + std::to_string(getpid()); mkdir(dir.c_str(), 0700);
+        if (sc.long_path) { size_t fixed = dir.size() + 1 + 1 + 4 + strlen(ext_of(sc.comp)); if ((size_t)sc.long_path <= fixed + 1) { fprintf(stderr, "scratch path too long for the long-path scenario\n"); _exit(2); } dir += "/" + std::string(sc.long_path - fixed, 'd'); mkdir(dir.c_str(), 0700); }
+        g_track = dir;
         auto prepare = [&]() { clean_dir(dir);
             if (sc.devnull_first) { if (symlink("/dev/null", (dir + "/outA" + ext_of(sc.comp)).c_str()) != 0) { fprintf(stderr, "symlink failed\n"); _exit(2); } }
             if (sc.stale_part) for (const char* n : {"outA", "outB"}) { std::string junk(20000, 0); for (size_t i = 0; i < junk.size(); i++) junk[i] = (char)(i * 7 + 3); spit(dir + "/" + n + ext_of(sc.comp) + ".part", junk); }
